@@ -46,7 +46,8 @@ import (
 // C is a matrix of size n×ncc whose elements are stored in c. The elements
 // of c are modified to contain Qᵀ * C on exit. C is not used if ncc == 0.
 //
-// work contains temporary storage and must have length at least 4*(n-1). Dbdsqr
+// work contains temporary storage and must have length at least 4*n if
+// ncvt == nru == ncc == 0 and n > 1, and at least 4*(n-1) otherwise. Dbdsqr
 // will panic if there is insufficient working memory.
 //
 // Dbdsqr returns whether the decomposition was successful.
